@@ -5,7 +5,9 @@ EXTENDS Limits
 CONSTANTS Max, Slack, Cap,
           EvalIsOwnExecution,       \* TRUE ideal: an expression evaluated between runs (runtime::evaluate_expression, __EVAL) has a budget and
                                     \* an exit request of its own; FALSE: it finds the exit request / budget the last run left (and never ends)
-          RefusedStartKeepsBudget   \* TRUE ideal; FALSE: a start request refused because a run is in progress renews that run's budget
+          RefusedStartKeepsBudget,  \* TRUE ideal; FALSE: a start request refused because a run is in progress renews that run's budget
+          NestedEvalSharesBudget    \* TRUE ideal: an expression evaluated while a run is in progress (a script preprocesses a text with __EVAL)
+                                    \* belongs to that run; FALSE: it gets a budget of its own, one per evaluation
 
 VARIABLES clock, created, budgetStart, phase, cur, runs, loop, idled,
           exitreq,     \* the exit request: set by the deadline abort, cleared when a run starts
@@ -61,6 +63,12 @@ StartRequest == /\ phase = "run" /\ cur.sleepleft = 0 /\ cur.executed < cur.need
                 /\ budgetStart' = clock
                 /\ UNCHANGED <<clock, created, phase, cur, runs, loop, idled, exitreq, saved>>
 
+\* a script of the run has an expression evaluated (inside one operator call): instructions like any other
+NestedEval == /\ phase = "run" /\ cur.sleepleft = 0 /\ cur.executed < cur.needed /\ cur.needed = 99
+              /\ ~NestedEvalSharesBudget /\ budgetStart # clock
+              /\ budgetStart' = clock
+              /\ UNCHANGED <<clock, created, phase, cur, runs, loop, idled, exitreq, saved>>
+
 \* one step of an evaluation: nothing executes once an exit is requested. The ideal evaluation is over then;
 \* the deviation waits for its context to empty (the clock runs on: recorded as ended far beyond the limit)
 EvalInstr == /\ phase = "eval" /\ cur.executed < cur.needed
@@ -91,7 +99,7 @@ LoopIter == /\ ~loop.done /\ runs = <<>> /\ phase = "idle" /\ loop.iters < Cap +
                   ELSE loop' = [loop EXCEPT !.iters = loop.iters + 1, !.counted = c2]
             /\ UNCHANGED <<clock, created, budgetStart, phase, cur, runs, idled, exitreq, saved>>
 
-Next == Idle \/ RunBegin \/ Instr \/ Spin \/ RunEndNormal \/ LoopStart \/ LoopIter \/ EvalBegin \/ EvalInstr \/ EvalEnd \/ StartRequest
+Next == Idle \/ RunBegin \/ Instr \/ Spin \/ RunEndNormal \/ LoopStart \/ LoopIter \/ EvalBegin \/ EvalInstr \/ EvalEnd \/ StartRequest \/ NestedEval
 Spec == Init /\ [][Next]_vars
 
 InvRunEndsInTime == \A i \in 1..Len(runs) : RunEndsInTime(runs[i], Slack)
